@@ -34,7 +34,14 @@ class EB(BaseEvent):
     tag: int = -1
 
 
-TY = {'EA': EA, 'EB': EB}
+class EC(BaseEvent):
+    # a model that declares its own event_type: events carry 'ec_custom', handlers registered for the class must see them
+    event_type: str = 'ec_custom'
+    n: int = 0
+    tag: int = -1
+
+
+TY = {'EA': EA, 'EB': EB, 'EC': EC}
 FILT = {
     'any': lambda e: True,
     'odd': lambda e: e.n % 2 == 1,
@@ -52,13 +59,13 @@ def _case(draw):
     for _ in range(draw(st.integers(2, 11))):
         k = draw(st.sampled_from(['expect', 'expect', 'disp', 'disp', 'disp', 'sleep', 'cancel']))
         if k == 'disp':
-            ops.append(['disp', draw(st.sampled_from(['EA', 'EA', 'EB'])), draw(st.integers(0, 6)), draw(st.integers(1, 3))])
+            ops.append(['disp', draw(st.sampled_from(['EA', 'EA', 'EB', 'EC'])), draw(st.integers(0, 6)), draw(st.integers(1, 3))])
         elif k == 'sleep':
             ops.append(['sleep', draw(q)])
         elif k == 'cancel':
             ops.append(['cancel', draw(st.integers(0, 5))])
         else:
-            ops.append(['expect', draw(st.sampled_from(['EA', 'EA', 'EB'])), draw(st.booleans()), draw(st.sampled_from(['any', 'any', 'odd', 'big', 'never', 'boom'])), draw(st.sampled_from(['never', 'never', 'never', 'odd', 'big', 'boom'])), draw(st.sampled_from(['any', 'any', 'any', 'odd'])), draw(st.sampled_from([None, 0.0625, 0.3125, 1.0625, 0, 0.0]))])
+            ops.append(['expect', draw(st.sampled_from(['EA', 'EA', 'EB', 'EC'])), draw(st.booleans()), draw(st.sampled_from(['any', 'any', 'odd', 'big', 'never', 'boom'])), draw(st.sampled_from(['never', 'never', 'never', 'odd', 'big', 'boom'])), draw(st.sampled_from(['any', 'any', 'any', 'odd'])), draw(st.sampled_from([None, 0.0625, 0.3125, 1.0625, 0, 0.0]))])
     if draw(st.integers(0, 5)) == 0:
         # the bus is stopped with clear=True while expects may still be pending: they must still end with TimeoutError / stay pending
         ops.insert(draw(st.integers(max(0, len(ops) - 3), len(ops))), ['stopclear'])
@@ -114,8 +121,10 @@ def run_case(c):
 
         bus.on(EA, probe)
         bus.on(EB, probe)
+        bus.on('ec_custom', probe)  # (class patterns are keyed by class name: the declared type name is what events of EC carry)
         bus.on(EA, slow)
         bus.on(EB, slow)
+        bus.on('ec_custom', slow)
         bus.on('*', last)
 
         def nhandlers():
@@ -140,7 +149,7 @@ def run_case(c):
             if pred != 'any':
                 kw['predicate'] = FILT[pred]
             try:
-                r = await bus.expect(ty if as_str else TY[ty], timeout=to, **kw)
+                r = await bus.expect(({'EC': 'ec_custom'}.get(ty, ty)) if as_str else TY[ty], timeout=to, **kw)
                 rec['out'] = ('got', r)
             except asyncio.CancelledError:
                 rec['out'] = ('cancelled',)
@@ -228,6 +237,8 @@ def run_case(c):
                 # processing had started before registration, or starts at the very instant of registration (the handler
                 # list may have been fixed before the probe handler ran): may or may not be seen
                 amb = p['s'] < rec['reg_seq'] or p['st'] == rec['reg_t']
+                if ty == 'EC' and not op[2]:
+                    amb = True  # a class pattern whose model overrides event_type: whether it sees events that carry the declared name is not specified; only the unsubscription clauses are judged for it
                 if D is not None and p['st'] > D:
                     break
                 if C is not None and p['st'] > C:
